@@ -87,10 +87,27 @@ def _sp_latin1(eng, args, kw, n):
 SPEC_BUILTINS["Latin1"] = _sp_latin1
 SPEC_BUILTINS["J9Valid"] = _sp_j9valid
 SPEC_BUILTINS["J9Dec"] = _sp_uf_fun("pure_juniper_decrypt", STR, STR)
+# J9Decodable(s): juniper_decrypt(s) returns (uninterpreted).  A VALID-shaped string whose last character group is
+# incomplete is refused as well, so decodability is NOT the language of VALID; all that is assumed is that a
+# decodable string is VALID-shaped and that what the encoder produces is decodable.
+SPEC_BUILTINS["J9Decodable"] = _sp_uf_pred("J9Decodable", STR)
+
+
+@R.axiom
+def j9_decodable_is_valid(eng):
+    """ASSUMED with the contract of juniper_decrypt: only VALID-shaped strings are decodable"""
+    import z3 as _z3
+    from pyvc.lib import uf, S
+    x = _z3.Const("j9.s", S)
+    A = _z3.Union(*[_z3.Re(_z3.StringVal(c)) for c in ALPHABET])
+    lang = _z3.Concat(_z3.Re(_z3.StringVal("$9$")), _z3.Loop(A, 4, 4), _z3.Star(A))
+    dec = uf("J9Decodable", S, _z3.BoolSort())
+    return [Schema("E-juniper.decodable_is_valid", [x], _z3.Implies(dec(x), _z3.InRe(x, lang)),
+                   triggers=[[dec(x)]], origin="theory")]
 R.contract(M + "juniper_decrypt", trusted=True,
            types={"crypt": STR}, returns=STR, pure=True,
-           raises={"ValueError": "not J9Valid(crypt)"},
-           ensures=["True"])
+           raises={"ValueError": "not J9Decodable(crypt)"},
+           ensures=["J9Valid(crypt)"])
 R.contracts[M + "juniper_nonrandom_encrypt"].trusted_ensures = [
-    "implies(len(plain) >= 1, J9Valid(result))",
+    "implies(len(plain) >= 1, J9Valid(result) and J9Decodable(result))",
     "implies(len(plain) >= 1 and Latin1(plain), J9Dec(result) == plain)"]
